@@ -62,7 +62,14 @@ func (o Obs) String() string { return o.Log + " | " + o.Kind + " | " + o.Val }
 // RunJS executes code in a fresh realm. The interrupt timer is a safety net only: when it fires the run is
 // repeated once with a fifteen times longer limit, so that a loaded machine cannot turn a finite run into
 // "interrupted"; a run that is interrupted twice did not terminate (Hang).
+// OnReturn, when set, is called whenever a reference-engine run has returned (progress signal for the
+// harness watchdog: a hang is a single call that does not return, not a large case made of many calls).
+var OnReturn func()
+
 func RunJS(code string) (obs Obs) {
+	if OnReturn != nil {
+		defer OnReturn()
+	}
 	obs = runJS(code, 2*time.Second)
 	if obs.Interrupted {
 		obs = runJS(code, 30*time.Second)
